@@ -23,7 +23,8 @@ def cm_nontrivial(evs):
 
 def _args(tier, seed, k, profile):
     return ["--seed", seed, "--segments", 5 if tier == Q else 7, "--events", 220 + 40 * (k % 3),
-            "--maxrows", 8, "--serde", 18 if profile == "serde" else 3, "--stats", 2 if tier == Q else 4]
+            "--maxrows", 8, "--serde", 18 if profile == "serde" else 3, "--stats", 2 if tier == Q else 4,
+            "--hstats", 2 if tier == Q else 4]
 
 
 CM_JOB = job("countmin",
